@@ -93,6 +93,12 @@ def replay_c16(case):
         if not dev <= tol:
             res["violations"].append("%s: quadrature of the evaluated functions and the analytic integral differ by %.3g (types %s, l %s)"
                                      % (name, dev, case["types"], [s["l"] for s in basis]))
+    if len(basis) >= 2:
+        # a neighbouring geometry (first shell displaced by 5e-7 bohr) is evaluated first and discarded
+        from . import reuse
+        reuse.neighbour_first(gb, basis, m("gbasis.integrals.overlap").overlap_integral)
+        reuse.neighbour_first(gb, basis, m("gbasis.integrals.kinetic_energy").kinetic_energy_integral)
+        reuse.neighbour_first(gb, basis, lambda sh: m("gbasis.integrals.moment").moment_integral(sh, org, orders))
     Sa = m("gbasis.integrals.overlap").overlap_integral(shells)
     Ta = m("gbasis.integrals.kinetic_energy").kinetic_energy_integral(shells)
     Ma = m("gbasis.integrals.moment").moment_integral(shells, org, orders)
